@@ -414,9 +414,6 @@ func monitorC31(r *evRun) []string {
 				ready = append(ready[:i:i], ready[i+1:]...)
 			} else if has(pending, it.ID) >= 0 {
 				ctxTag := "[event-before-commit]"
-				if it.Op < len(r.InitAt) && r.InitAt[it.Op] && !(r.Case.Steps[it.Op].Bulk && r.Case.Steps[it.Op].Atomic) {
-					ctxTag = "[event-before-commit:first-write]"
-				}
 				early[it.ID] = true
 				say(fmt.Sprintf("event %q (log %d) published at commit-seq %d while the transaction that wrote the log is still open %s", it.Desc, it.ID, it.Seq, ctxTag))
 			} else {
